@@ -80,4 +80,78 @@ theorem reach_year {S : Type} (sc : Scorer S) (ts : Ts) (hts : TsOk ts) (B : Int
 
 theorem yearCap_of_tsOk (ts : Ts) (hts : TsOk ts) : YearCap ts 9990 := ⟨by omega, by have := hts.hi; omega⟩
 
+
+/-! ### latent-time anchoring keeps the bound -/
+theorem latentTod_year (ts : Ts) (hts : TsOk ts) (B : Int) (hB : YearCap ts B) (tod r : Time) (h : latentTod ts tod = .ok r) :
+    (Val.time r).YearLe B := by
+  unfold latentTod at h
+  cases hh : tod.hour with
+  | none => simp [hh, need, bind, Except.bind, throw, throwThe, MonadExceptOf.throw] at h
+  | some x =>
+    simp only [hh, need, bind, Except.bind, pure, Except.pure] at h
+    generalize hmi : tod.minute.getD 0 = mi at h
+    cases hin : inDay x mi with
+    | false => simp [hin, throw, throwThe, MonadExceptOf.throw] at h
+    | true =>
+      simp only [hin, Bool.not_true, Bool.false_eq_true, if_false] at h
+      generalize hd0 : (if x * 60 + mi ≤ ts.h * 60 + ts.mi then ts.date.addDays 1 else ts.date) = d0 at h
+      cases hc : dateOk d0 with
+      | error e => simp [hc] at h
+      | ok d =>
+        simp [hc] at h; subst h
+        have ec : d = d0 := by
+          unfold dateOk at hc; split at hc <;> simp [pure, Except.pure, throw, throwThe, MonadExceptOf.throw] at hc; exact hc.symm
+        obtain ⟨o1, o2⟩ := hts.ord
+        have hy : d0.y ≤ ts.date.y + 1 := by
+          subst hd0
+          split
+          · obtain ⟨av, ao⟩ := addDays_spec ts.date 1 (by omega) (by omega)
+            have := year_le_of_ord _ ts.date av hts.valid.1 1 (by omega)
+            omega
+          · omega
+        subst ec
+        intro y hy'; simp at hy'; have := hB.rel; omega
+
+theorem applyLatent_year (ts : Ts) (hts : TsOk ts) (B : Int) (hB : YearCap ts B) (a b : Art) (ha : a.v.YearLe B) (h : applyLatent ts a = .ok b) :
+    b.v.YearLe B := by
+  unfold applyLatent at h
+  split at h
+  · rename_i t hv
+    split at h
+    · cases hl : latentTod ts t with
+      | error e => simp [hl, bind, Except.bind] at h
+      | ok r => simp [hl, bind, Except.bind, pure, Except.pure] at h; subst h; exact latentTod_year ts hts B hB t r hl
+    · simp [pure, Except.pure] at h; subst h; exact ha
+  · rename_i f t hv
+    split at h
+    · cases hl : latentInterval ts f t with
+      | error e => simp [hl, bind, Except.bind] at h
+      | ok r =>
+        simp [hl, bind, Except.bind, pure, Except.pure] at h; subst h
+        -- the anchored value is an interval: no claim about the years of interval ends
+        unfold latentInterval at hl
+        simp only [need, bind, Except.bind, pure, Except.pure] at hl
+        repeat' (split at hl)
+        all_goals (try (simp [pure, Except.pure, throw, throwThe, MonadExceptOf.throw] at hl))
+        all_goals (try (subst hl))
+        all_goals trivial
+    · simp [pure, Except.pure] at h; subst h; exact ha
+  · simp [pure, Except.pure] at h; subst h; exact ha
+
+theorem latentAll_year {S : Type} (ts : Ts) (hts : TsOk ts) (B : Int) (hB : YearCap ts B) : ∀ (cs : List (Cand S)),
+    (∀ c ∈ cs, c.res.v.YearLe B) → ∀ c ∈ (latentAll ts cs).1, c.res.v.YearLe B := by
+  intro cs
+  induction cs with
+  | nil => intro _ c hc; simp [latentAll] at hc
+  | cons c0 cs ih =>
+    intro hall c hc
+    simp only [latentAll] at hc
+    cases hl : applyLatent ts c0.res with
+    | error e => simp [hl] at hc
+    | ok r =>
+      simp only [hl] at hc
+      rcases List.mem_cons.mp hc with rfl | hc
+      · exact applyLatent_year ts hts B hB c0.res r (hall c0 (by simp)) hl
+      · exact ih (fun c hc => hall c (List.mem_cons_of_mem _ hc)) c hc
+
 end QuickAdd
